@@ -91,9 +91,13 @@ impl TestEnvironment {
         keep_temporary_directories: bool,
     ) -> Result<Self> {
         let (work_directory, tmp_directory) = if keep_temporary_directories {
+            #[cfg(feature = "verif_sim")]
+            scrut::verif_sim::fs_fault("env:kept-work")?;
             let work_path = TempDir::with_prefix("execution.")
                 .context("create temporary working directory")?
                 .into_path();
+            #[cfg(feature = "verif_sim")]
+            scrut::verif_sim::fs_fault("env:kept-temp")?;
             let temp_path = TempDir::with_prefix("temp.")
                 .context("create temporary working directory")?
                 .into_path();
@@ -102,6 +106,8 @@ impl TestEnvironment {
                 EnvironmentDirectory::Kept(temp_path),
             )
         } else if let Some(directory) = provided_work_directory {
+            #[cfg(feature = "verif_sim")]
+            scrut::verif_sim::fs_fault("env:temp-in-work")?;
             (
                 EnvironmentDirectory::UserProvided(directory.into()),
                 EnvironmentDirectory::Ephemeral(
@@ -110,9 +116,13 @@ impl TestEnvironment {
                 ),
             )
         } else {
+            #[cfg(feature = "verif_sim")]
+            scrut::verif_sim::fs_fault("env:work")?;
             let work =
                 TempDir::with_prefix("execution.").context("create temporary working directory")?;
             let temp_path = work.path().join("__tmp");
+            #[cfg(feature = "verif_sim")]
+            scrut::verif_sim::fs_fault("env:tmp-in-work")?;
             fs::create_dir(&temp_path)
                 .context("create tmp directory in temporary work directory")?;
             (
@@ -257,6 +267,8 @@ fn create_random_sub_directory(
 ) -> Result<PathBuf, anyhow::Error> {
     let mut directory: PathBuf = directory.into();
     directory.push(namer.next_name(file_name));
+    #[cfg(feature = "verif_sim")]
+    scrut::verif_sim::fs_fault("env:document-dir")?;
     if !directory.exists() {
         fs::create_dir(&directory).context("create working directory")?;
     }
